@@ -72,7 +72,12 @@ fn fixed_cases() -> Vec<Case> {
   let r2 = json!({"id": "r2", "language": "JavaScript", "severity": "warning", "message": "m", "rule": {"pattern": "foo(foo($A))"}, "fix": "baz($A)"});
   let r3 = json!({"id": "r3", "language": "JavaScript", "severity": "warning", "message": "m", "rule": {"pattern": "keep($A)"}, "fix": "kept($A)"});
   let r4 = json!({"id": "r4", "language": "Css", "severity": "warning", "message": "m", "rule": {"pattern": "color: red"}, "fix": "color: blue"});
+  let r5 = json!({"id": "r5", "language": "Html", "severity": "warning", "message": "m", "rule": {"pattern": "<b>$$$A</b>"}, "fix": "<i>$$$A</i>"});
+  let r6 = json!({"id": "r6", "language": "TypeScript", "severity": "warning", "message": "m", "rule": {"pattern": "foo($A)"}, "fix": "bar($A)"});
   vec![
+    // three and four documents in one file, each with an accepted fix
+    Case { id: "scan-html-three-docs".into(), files: vec![("q.html".into(), "<html><body><b>x</b>\n<style>\na { color: red }\n</style><script>\nfoo(1);\n</script>\n<b>y é</b></body></html>\n".into()), ("r.html".into(), "<p>none</p>\n".into())], rules: vec![r1.clone(), r4.clone(), r5.clone()] },
+    Case { id: "scan-html-four-docs".into(), files: vec![("s.html".into(), "<html><body>\n<script lang=\"ts\">\nfoo(2);\n</script>\n<b>x</b>\n<style>\na { color: red }\n</style><script>\nfoo(1);\n</script></body></html>\n".into())], rules: vec![r1.clone(), r4.clone(), r5.clone(), r6.clone()] },
     Case { id: "scan-two-rules".into(), files: vec![("a.js".into(), "foo(foo(1)); keep(2);\nfoo(3);\n".into()), ("b.js".into(), "nothing();\n".into())], rules: vec![r1.clone(), r2.clone(), r3.clone()] },
     Case { id: "scan-html-js-css".into(), files: vec![("p.html".into(), "<html><style>\na { color: red }\n</style><script>\nfoo(1);\n</script></html>\n".into())], rules: vec![r1.clone(), r4.clone()] },
     Case { id: "scan-crlf".into(), files: vec![("w.js".into(), "foo(1);\r\nfoo(\"é🦀\");\r\n".into())], rules: vec![r1.clone()] },
